@@ -82,6 +82,8 @@ def generate(seed, tier):
                     d['cmds']['mkdir '] = {'content': {'size': 0}, 'cuts': []}
             if 'path' in op and g.chance(0.15):
                 op['path'] = ''
+                if op['op'] == 'pull' and op.get('dest') == 'file':
+                    op['local_name'] = 'newdir%d/sub/pulled.bin' % i      # the destination's directory does not exist (and must not afterwards)
             op['rt'] = 2.0
             if op['op'] in ('shell', 'exec_out', 'root', 'reboot', 'stat', 'list') and op.get('path', 'x') and g.chance(0.15):
                 # the operation's coroutine is created in one state of the connection and awaited in another (asyncio.create_task,
@@ -131,6 +133,9 @@ def generate(seed, tier):
         d.pop('auth')
     d['silent_sessions'] = silent
     d['cmds'].setdefault('__root__', {'content': {'size': 0}, 'cuts': None})
+    if g.chance(0.15):
+        # the state the device names in its CNXN payload is its own business: a completed handshake is a connection
+        d['banner_hex'] = g.pick([b'sideload::ro.product.name=x', b'rescue::', b'recovery::x', b'offline::', b'\x00', b'device']).hex()
     if g.chance(0.4):
         # what adbd says when asked for root (whatever it says, root() is an ordinary operation: the connection state is the caller's business)
         txt = g.pick([b'restarting adbd as root\n', b'restarting adbd as root\n', b'adbd is already running as root\n', b'adbd cannot run as root in production builds\n'])
@@ -190,12 +195,16 @@ def evaluate(case, tapes=None):
                 if rec.get('calls1', rec['calls0']) != rec['calls0']:
                     probs.append(O.P('transport-call-unconnected', 'op#%d %s made %d transport calls while not connected' % (i, k, rec['calls1'] - rec['calls0'])))
                 if k == 'pull':
+                    if rec.get('dest_parent_created'):
+                        probs.append(O.P('file-created-unconnected', 'op#%d pull created the directory of its local destination although nothing was pulled' % i))
                     if rec.get('dest_exists'):
                         probs.append(O.P('file-created-unconnected', 'op#%d pull created the local destination although nothing was pulled' % i))
                     if rec.get('dest_bytes'):
                         probs.append(O.P('file-created-unconnected', 'op#%d pull wrote %d bytes into the destination while not connected' % (i, len(rec['dest_bytes']))))
             if 'path' in op and not op['path']:
                 pr['c13_empty_path'] = 1
+        if k == 'pull' and op.get('path') == '' and rec.get('dest_parent_created'):
+            probs.append(O.P('file-created-unconnected', 'op#%d pull with an empty device path created the directory of its local destination' % i))
         if rec.get('avail1') != connected:
             probs.append(O.P('available-wrong', 'after op#%d %s: available is %r, the connection model says %r' % (i, k, rec.get('avail1'), connected)))
     if failed_then_op:
